@@ -14,7 +14,25 @@ package agreement
 //
 // Environment: VERIF_SEED, VERIF_TIER, VERIF_REPLAY (a netdrive.sched style file: exactly these schedules and decisions are
 // re-executed), VERIF_ND_SCHEDULES (count), VERIF_ND_PROFILE (force one profile), VERIF_ND_NODES (force N), VERIF_ND_FROM
-// (skip schedules with a smaller id), VERIF_ND_STEPS, VERIF_ND_ROUNDS, VERIF_ND_BYZ (0/1 force).
+// (skip schedules with a smaller id), VERIF_ND_STEPS, VERIF_ND_ROUNDS, VERIF_ND_BYZ (0/1 force), VERIF_ND_NODOUBLE=1, VERIF_ND_TIMER_ORDER=1 (see the variables below).
+
+// Concrete log grammar (netdrive.log; every line is prefixed `S<schedule id> `; val = `bot` or <digest12>.<encdigest4>.<origperiod>):
+//
+//	ATTEST node gen round period step val pstep      an attest action left player.handle (pstep = player.Step after the handle)
+//	CHECKPOINT node gen round period step            checkpointEvent without error handled: that state is on disk
+//	VOTEOUT src sender round period step val own     a vote message left node src (own=1: signed by src's own key = released)
+//	BUNDLEOUT src round period step val votes eq     PROPOUT src round val pvperiod h       other messages leaving a node
+//	ENSURE node gen round digest val cperiod cstep cvotes ceq kind     EnsureBlock / EnsureValidatedBlock (digest = 16 hex of Block.Digest)
+//	STAGEDIGEST node round period val                EnsureDigest (certificate without block)
+//	CRASH node gen round period step                 Shutdown;  RESTART node gen restored round period step pending modelperiod droppedvotes matched
+//	DROPVOTE node round period step val              an attest that was neither persisted nor released before the crash (removed from the trace)
+//	BYZVOTE node round period step val               CATCHUP node round from          MONITOR-CONFLICT round digests=a,b
+//	NOTE …                                           harness remarks (QUIET-TIMEOUT, REPLAY-DIVERGED, enter-cause-mismatch, vote-without-attest, …)
+//
+// In-package entry points for other properties' harnesses: ndPlan / ndParseHeader (configurations), ndNewRun (environment),
+// (*ndRun).startNode / stopNode / restart / waitQuiet / exec(decision line) / generate() / execute(out) / write(out), the scenario
+// helper ndScen{do, deliver(pred), mask, credOrder, valueOf}, ndInstallHooks (verifNDAtStart / verifNDAfterHandle), byzSign / byzVote /
+// byzProposal, and the wrappers ndLedger (hold gate on persistence), ndClock (fire), ndListener (quiescence).
 
 import (
 	"bufio"
@@ -36,6 +54,12 @@ import (
 
 var ndNoDouble = os.Getenv("VERIF_ND_NODOUBLE") == "1"
 
+// ndTimerOrder (VERIF_ND_TIMER_ORDER=1): fire a node's second and later fast-recovery timeouts of a period only when its Step
+// is past cert, i.e. assume that timers are handled in deadline order.  Off by default: since the fix "fast-recovery vote
+// gives up the earlier steps" (issueFastVote) the real code needs no such assumption, and every profile may handle a
+// fast timeout at any step (a node that was stalled or down for longer than FastRecoveryLambda inside a period).
+var ndTimerOrder = os.Getenv("VERIF_ND_TIMER_ORDER") == "1"
+
 func ndEnvInt(name string, def int) int {
 	if v, err := strconv.Atoi(os.Getenv(name)); err == nil {
 		return v
@@ -46,7 +70,7 @@ func ndEnvInt(name string, def int) int {
 // ndPlan: the configuration of schedule i for the given master seed.
 func ndPlan(master uint64, i int, thorough bool) ndConfig {
 	rng := vh.NewRng(master*1000003 + uint64(i)*7919 + 17)
-	profiles := []string{"sync", "async", "lossy", "crash", "byz", "mixed", "part", "crash", "byz", "mixed"}
+	profiles := []string{"sync", "async", "lossy", "crash", "byz", "mixed", "part", "stall", "byz", "mixed"}
 	c := ndConfig{id: i, seed: rng.U64() >> 1, n: 4, rounds: 2, maxSteps: 900, profile: profiles[i%len(profiles)]}
 	if thorough {
 		c.n = 4 + rng.Intn(4)
